@@ -908,3 +908,30 @@ Proof.
         -- destruct (H4 data H) as (_ & _ & Hn). simpl. intros [Hc0|Hc0]; [discriminate|contradiction].
     + inversion E; subst. simpl in *. repeat split; auto; try congruence; try (intros data H; discriminate).
 Qed.
+
+Theorem read_loops_proof :
+  (forall fd amount orc r evs orc', ReadOrEOF fd amount orc = (r, evs, orc') ->
+     r <> Fuel /\ r <> Abort /\ is_val r = negb (any_failed evs) /\
+     (forall data, r = Val data -> data = concat (delivered fd evs))) /\
+  (forall fd amount orc r evs orc', ReadOrThrow fd amount orc = (r, evs, orc') ->
+     r <> Fuel /\ r <> Abort /\ (any_failed evs = true -> r = Exn) /\
+     (forall data, r = Val data -> any_failed evs = false /\ data = concat (delivered fd evs) /\ ~ In [] (delivered fd evs))).
+Proof.
+  split; intros fd amount orc r evs orc' E.
+  - unfold ReadOrEOF in E. destruct (read_or_eof_spec fd _ _ _ _ _ _ _ (Nat.lt_succ_diag_r _) E) as (H1 & H2 & H3 & H4 & _). auto.
+  - unfold ReadOrThrow in E. destruct (read_or_throw_spec fd _ _ _ _ _ _ _ (Nat.lt_succ_diag_r _) E) as (H1 & H2 & H3 & H4). auto.
+Qed.
+
+Theorem premature_eof_lines_proof :
+  forall wr needs lines t feeder_ok,
+  (lines < fold_right Nat.add 0 needs)%nat ->
+  wrapper_status wr needs lines t feeder_ok = Signaled SIGABRT.
+Proof.
+  intros wr needs lines t fok H. apply premature_eof_nonzero_proof.
+  rewrite collect_spec. rewrite (proj2 (Nat.leb_gt _ _)) by exact H. reflexivity.
+Qed.
+
+Theorem iostream_tools_are_checked_proof :
+  conf_checked conf_process_unicode /\ conf_checked conf_mmhsum /\
+  conf_checked conf_gigaword_unwrap /\ conf_checked conf_order_independent_hash.
+Proof. unfold conf_checked; cbv; intuition congruence. Qed.
